@@ -230,9 +230,9 @@ def run_property(prop, tier="quick", seed=0, unit_filter=None, nproc=None, extra
             status, out = 1, "no model could be extracted"
             suffix = " no-failing-input-found"
         else:
-            status, out = run_replay(path)
+            status, out = run_replay(path, timeout=900 if "custom" in extra else 60)
             suffix = ""
-            if status == 124 and redirect is None:
+            if status == 124 and redirect is None and "custom" not in extra:
                 # this instance cannot be replayed in reasonable time: try other instances of the same obligation
                 for o2, r2 in [(o, r) for o, r in items if o is not ob and o.get("inputs") is not None][:3]:
                     path2 = write_replay(prop, o2, r2, extra=extra)
